@@ -323,8 +323,9 @@ func (e *EdgeQuery) Distance(target distanceTarget) s1.ChordAngle {
 //
 //	query.IsDistanceLess(target, limit.Successor())
 func (e *EdgeQuery) IsDistanceLess(target distanceTarget, limit s1.ChordAngle) bool {
-	opts := e.opts
-	opts = opts.MaxResults(1).
+	// Override the options for this call only.
+	o := *e.opts
+	opts := o.MaxResults(1).
 		DistanceLimit(limit).
 		MaxError(s1.StraightChordAngle)
 	return !e.findEdge(target, opts).IsEmpty()
@@ -401,8 +402,13 @@ func sortAndUniqueResults(results []EdgeQueryResult) []EdgeQueryResult {
 // This is primarily to ease the usage of a number of the methods in the DistanceTargets
 // and in EdgeQuery.
 func (e *EdgeQuery) findEdge(target distanceTarget, opts *queryOptions) EdgeQueryResult {
-	opts.MaxResults(1)
-	e.findEdges(target, opts)
+	// The single-result override applies to this call only: search with a copy
+	// and leave the options the caller configured untouched.
+	saved := e.opts
+	defer func() { e.opts = saved }()
+	o := *opts
+	o.MaxResults(1)
+	e.findEdges(target, &o)
 	if len(e.results) > 0 {
 		return e.results[0]
 	}
